@@ -51,7 +51,7 @@ const (
 	maxKnobs   = 16
 	maxSites   = 1 << 16
 	maxPairs   = 1 << 12
-	watchdogMs = 30000
+	watchdogMs = 90000
 )
 
 type task struct {
